@@ -235,9 +235,9 @@ for _t in P.tasks:
     _t.replay = _replay_ownership
 
 
-@P.bounded_check("every_byte_truncation_opens_without_crash", "one 3-snapshot IAS15 archive, every cut offset (stride 1 in thorough)")
+@P.bounded_check("every_byte_truncation_opens_without_crash", "one 3-snapshot IAS15 archive, cut offsets with stride 5 plus the last 40 bytes (thorough tier only)")
 def _(tier, seed):
-    r = _native_truncation(cfront.REPO, 1 if tier == "thorough" else 53)
+    r = _native_truncation(cfront.REPO, 5 if tier == "thorough" else 53)
     r["result"] = "violation" if r.get("crashes") else ("error" if r.get("error") else "held")
     if r.get("crashes"):
         r["witness"] = r["crashes"][0]
